@@ -71,6 +71,8 @@ func (e *Emitter) Close(statsPath string) {
 	}
 }
 
+var withGenesis bool
+
 func jsonValid(s string) bool { return json.Valid([]byte(s)) }
 
 func main() {
@@ -89,6 +91,7 @@ func main() {
 	steps := fs.Int("steps", 200, "ops per history")
 	outPath := fs.String("out", "-", "trace output")
 	statsPath := fs.String("stats", "", "stats output")
+	fs.BoolVar(&withGenesis, "genesis", false, "round-trip the custom modules' genesis at the end of every history")
 	fs.Parse(os.Args[2:])
 	out := NewEmitter(*outPath)
 	switch profile {
